@@ -423,6 +423,11 @@ def b_sum(ex, vals, s, e):
     raise Unbound('sum of a list')
 
 
+def b_eval(ex, vals, s, e):
+    ex.assumed('eval(text) behaves as CPython: result treated as an opaque value')
+    return [X.Res(s, SV(ANY, fresh('evaluated', ANY.sort())))]
+
+
 def b_dict(ex, vals, s, e):
     if not vals:
         return [X.Res(s, SV(TDict(NONE, NONE), d_empty(TDict(NONE, NONE), s.new_oid())))]
@@ -432,7 +437,7 @@ def b_dict(ex, vals, s, e):
 BUILTINS = {
     'len': b_len, 'isinstance': b_isinstance, 'type': b_type, 'min': b_minmax(True), 'max': b_minmax(False),
     'round': b_round, 'abs': b_abs, 'int': b_int, 'float': b_float, 'str': b_str, 'range': b_range,
-    'tuple': b_tuple_list, 'list': b_tuple_list, 'dict': b_dict, 'sum': b_sum,
+    'tuple': b_tuple_list, 'list': b_tuple_list, 'dict': b_dict, 'sum': b_sum, 'eval': b_eval,
 }
 
 
